@@ -10,6 +10,7 @@ import (
 	"fmt"
 	"os"
 	"sync"
+	"time"
 )
 
 type replayInput struct {
@@ -162,7 +163,7 @@ func KnownFinding(id string) bool {
 
 // WaitIdle blocks until every other interpreter thread is blocked (quiescence).
 // Natively it is approximated by the harness (sleep/poll); see each harness.
-var NativeWaitIdle = func() {}
+var NativeWaitIdle = func() { time.Sleep(250 * time.Millisecond) }
 
 func WaitIdle() { NativeWaitIdle() }
 
